@@ -13,6 +13,8 @@ import ModVerif.Proofs.EditSpecLists
 import ModVerif.Model.Modfile.EditAbs
 import ModVerif.Proofs.EditRefineWork
 import ModVerif.Proofs.EditRefineValid
+import ModVerif.Proofs.EditMoreStartW
+import ModVerif.Proofs.EditMoreKeepF
 namespace ModVerif.Props.C08
 open ModVerif ModVerif.EditSpec ModVerif.Modfile
 
@@ -258,5 +260,91 @@ example :
 example : stepOk stdValidity {} (.addExclude (B "example.com/a") (B "v1.2")) = false := by decide +kernel
 example : stepOk stdValidity {} (.addExclude (B "example.com/a") (B "v1.2.0")) = true := by decide +kernel
 example : stepOk stdValidity {} (.addGo (B "1.21rc1")) = true ∧ stepOk stdValidity {} (.addGo (B "1.x")) = false := by decide +kernel
+
+/-! ### Every strictly parsed starting file (Proofs/EditMoreStart*.lean) -/
+
+/-- **refines_abs_typed for EVERY strictly parsed starting file.**  The structural half of `Edit.StartOK` (the exclude /
+    replace / tool entries point at pairwise different lines of the tree) holds for every file the strict parser accepts
+    (`Edit.parseStrict_startOK`: the parser creates one typed entry per line, line ids are pairwise different — C20
+    `parse_ids_nodup`).  So for a whole `edit.session` the only condition on the starting file is the property's
+    "well-formed": no directive with an empty key (`Edit.WellFormedKeys`, observation O5 of Props/C15.lean). -/
+theorem sessionMod_refines_wellformed (file : Bytes) (ops : List Edit.Op) (o : Edit.Outcome) (f : File)
+    (hf : parseStrict (B "go.mod") file none = .ok f) (hk : Edit.WellFormedKeys f) (hv : ∀ op ∈ ops, Edit.ValidArgs op)
+    (h : Edit.sessionMod file ops = some o) :
+    o.start = Edit.absOf f ∧ Rel o.typed (run stdValidity o.start (ops.map Edit.Op.toSpec)) ∧
+    o.res = runOk stdValidity o.start (ops.map Edit.Op.toSpec) :=
+  sessionMod_refines file ops o f hf (Edit.parseStrict_startOK hf hk) hv h
+
+/-- … and for go.work (`Edit.WorkKeys`: godebug keys, use paths and replaced paths are non-empty) -/
+theorem sessionWork_refines_wellformed (file : Bytes) (ops : List Edit.Op) (o : Edit.Outcome) (f : WorkFile)
+    (hf : parseWork (B "go.work") file none = .ok f) (hk : Edit.WorkKeys f) (hv : ∀ op ∈ ops, Edit.ValidArgs op)
+    (h : Edit.sessionWork file ops = some o) :
+    o.start = Edit.absOfWork f ∧ Rel o.typed (run stdValidity o.start (ops.map Edit.Op.toSpec)) ∧
+    o.res = runOk stdValidity o.start (ops.map Edit.Op.toSpec) :=
+  sessionWork_refines file ops o f hf (Edit.parseWork_startOK hf hk) hv h
+
+/-- non-vacuity of the two theorems above: parsed files with non-empty keys on which a valid session has an outcome -/
+example :
+    (match parseStrict (B "go.mod") (B "module example.com/m\n\nrequire example.com/a v1.0.0\nexclude example.com/b v1.0.0\ntool example.com/t\n") none with
+     | .ok f => Edit.startOKb f && (Edit.sessionMod (B "module example.com/m\n\nrequire example.com/a v1.0.0\nexclude example.com/b v1.0.0\ntool example.com/t\n")
+         [.addRequire (B "example.com/a") (B "v1.5.0"), .dropTool (B "example.com/t")]).isSome
+     | .error _ => false) = true ∧
+    (match parseWork (B "go.work") (B "go 1.21\nuse ./a\n") none with
+     | .ok f => Edit.workStartOKb f && (Edit.sessionWork (B "go 1.21\nuse ./a\n") [.addUse (B "./b") []]).isSome
+     | .error _ => false) = true := by
+  constructor <;> decide +kernel
+
+/-! ### Untouched lines survive (Proofs/EditMoreKeep*.lean)
+
+    `Edit.viewX stmts` = the live lines of the tree with their FULL tokens (block verb in front), their whole-line
+    comments (`Before`) and their end-of-line comments (`Suffix`).  `Edit.Targets op toks`: the tokens are those of the
+    directive the operation names — `require <path> _` for AddRequire/DropRequire of that path, the `go` line for
+    AddGoStmt/DropGoStmt, `replace <old path> …` for AddReplace/DropReplace, every `require` line for the two bulk
+    setters (which rewrite all requirements), …; Add operations that only append name no line.  `Edit.Sorts op`: the
+    operation ends with SortBlocks, whose documented de-duplication removes the lines in `Edit.kill3` (later duplicate
+    excludes, earlier replacements of the same module, later duplicate tools). -/
+
+/-- **one operation leaves every line it does not name as it is.**  From a state satisfying the tree invariant
+    (Props/C15), for EVERY go.mod operation with valid arguments: a live line whose tokens the operation does not name
+    and which is not removed as a duplicate by SortBlocks is still in the tree afterwards, with the same line id, the
+    same full tokens, and `Before` / `Suffix` comments containing the old ones as sublists. -/
+theorem op_untouched_line_survives (e e' : Edit.EFile) (op : Edit.Op) (hv : Edit.ValidArgsAll e op) (hi : Edit.Inv e)
+    (h : Edit.applyMod e op = some (.ok e')) (x : Edit.XLine) (hx : x ∈ Edit.viewX e.f.syn.stmts)
+    (hnt : ¬Edit.Targets op x.toks) (hk : Edit.Sorts op = true → x.id ∉ Edit.kill3 e.f) :
+    ∃ x' ∈ Edit.viewX e'.f.syn.stmts, x'.id = x.id ∧ x'.toks = x.toks ∧ x.before.Sublist x'.before ∧
+      x.suffix.Sublist x'.suffix :=
+  Edit.applyMod_untouched e e' op hv hi h x hx hnt hk
+
+/-- **untouched_lines_survive.**  In a session of go.mod operations (bulk setters included) with valid arguments
+    (`Edit.RunValid`) from a state satisfying the tree invariant — e.g. `Edit.load f` for any strictly parsed well-formed
+    `f`: `Props.C15.parseStrict_inv` — a directive line that no operation of the session names and that no SortBlocks
+    removes as a duplicate (`Edit.Spared`, a condition on the line's tokens and id along the run) is still in the tree after
+    the final Cleanup: same line id, same full tokens; its `Before` and `Suffix` comments are sublists of the final ones
+    (Cleanup may add the comments of a collapsed one-line block).  Not covered: go.work sessions (same structure). -/
+theorem untouched_lines_survive (e e' : Edit.EFile) (ops : List Edit.Op) (res : List Bool) (hi : Edit.Inv e)
+    (hv : Edit.RunValid e ops) (h : Edit.runOps Edit.applyMod e ops [] 0 = .done e' res)
+    (x : Edit.XLine) (hx : x ∈ Edit.viewX e.f.syn.stmts) (hsp : Edit.Spared x.toks x.id e ops) :
+    ∃ x' ∈ Edit.viewX (Edit.cleanup e').f.syn.stmts, x'.id = x.id ∧ x'.toks = x.toks ∧ x.before.Sublist x'.before ∧
+      x.suffix.Sublist x'.suffix :=
+  Edit.untouched_lines_survive e e' ops res hi hv h x hx hsp
+
+/-- non-vacuity of `untouched_lines_survive` / `op_untouched_line_survives`: in a parsed file with comments, the `exclude`
+    line (with its `Before` and `Suffix` comments) is spared by a session that edits requirements, the go line and tools
+    (`Edit.sparedB` is a sound Boolean test of `Spared`, `Edit.runValidB` of `RunValid`, `Edit.invB` of `Inv`), and it is
+    found unchanged in the final tree -/
+example :
+    (match parseStrict (B "go.mod") (B "module m\n\ngo 1.20\n\nrequire (\n\ta v1.0.0 // indirect\n\tb v1.0.0\n)\n\n// why\nexclude x v1.0.0 // note\n") none with
+     | .ok f =>
+       let e := Edit.load f
+       let ops : List Edit.Op := [.addRequire (B "a") (B "v1.1.0"), .addGo (B "1.21"), .cleanup,
+         .setRequireSeparateIndirect [⟨B "a", B "v1.2.0", false⟩, ⟨B "c", B "v1.0.0", true⟩] false, .addTool (B "t")]
+       Edit.invB e && Edit.runValidB e ops &&
+       (Edit.viewX e.f.syn.stmts).any (fun x => x.toks == [B "exclude", B "x", B "v1.0.0"] && x.before.length == 1 &&
+         x.suffix.length == 1 && Edit.sparedB x.toks x.id e ops &&
+         (match Edit.runOps Edit.applyMod e ops [] 0 with
+          | .done e' _ => (Edit.viewX (Edit.cleanup e').f.syn.stmts).any (fun y => y.id == x.id && y.toks == x.toks &&
+              y.before == x.before && y.suffix == x.suffix)
+          | _ => false))
+     | .error _ => false) = true := by decide +kernel
 
 end ModVerif.Props.C08
